@@ -375,4 +375,6 @@ pub fn run(rep: &mut Report, cfg: &Cfg, group: Group, check: &'static str) {
         }
     }
     r.finish();
+    let judge = if check == "C02" { Judge::FULL.only(super::common::is_arith) } else { Judge::FULL.only(super::common::is_logic) };
+    super::progwalk::run(rep, cfg, check, &judge, &[group], 300, 60_000);
 }
